@@ -121,7 +121,7 @@ def oracle(P, content0, content1, ecc1, res, recorded):
                 rx = ib + sp.ljust(P.mbs - k, b"\0")
                 cw = ob + par
                 dist = sum(1 for x, y in zip(rx, cw) if x != y)
-                if P.erasures:
+                if P.erasures or P.only_erasures:      # `--only_erasures` alone implies erasure detection (as repaired, d23dd98)
                     f_ = sum(1 for x in ib + sp if x == P.erasure_symbol)
                     e_ = sum(1 for x, y in zip(rx, cw) if x != y and x != P.erasure_symbol)
                     ok = 2 * e_ + f_ <= P.mbs - k
@@ -261,9 +261,9 @@ def run(oc, tier, seed, model_available, escalate):
         oc.oracle_cases += 1
         for e in oracle(P, content0, content1, ecc1, res, len(content0)):
             oc.violations.append({"input": {"params": P.describe(), "file_damage": fk, "track_damage": tk, "size_change": sizechg,
-                                            "original": content0.hex() if len(content0) < 400 else "<%d bytes>" % len(content0),
-                                            "damaged": content1.hex() if len(content1) < 400 else "<%d bytes>" % len(content1),
-                                            "ecc": ecc1.hex() if len(ecc1) < 1500 else "<%d bytes>" % len(ecc1)},
+                                            "original": content0.hex(),
+                                            "damaged": content1.hex(),
+                                            "ecc": ecc1.hex()},
                                   "impl": {"exit": res["rc"], "stats": res["stats"], "output_len": None if res["out"] is None else len(res["out"])},
                                   "what": e})
         if "request" in res and len(res["request"]) < 400000:
@@ -298,6 +298,25 @@ def search(seed, tier, hints):
 
 
 def replay(payload):
-    common.say("replay input:", {k: v for k, v in payload.get("input", {}).items() if k != "ecc"})
-    common.say("re-run the check with the recorded seed to reproduce (a real ecc file is involved)")
-    return 0
+    """re-executes the recorded scenario on the real tool and judges it again; exit 1 if the property still fails on it"""
+    inp = payload.get("input", {})
+    try:
+        P = eu.Params(**inp["params"])
+        content0, content1, ecc1 = bytes.fromhex(inp["original"]), bytes.fromhex(inp["damaged"]), bytes.fromhex(inp["ecc"])
+    except (KeyError, ValueError, TypeError):
+        common.say("replay file is not self-contained (written by an older version): re-run the check with the recorded seed")
+        return 0
+    f = eu.parse_entry(ecc1, *eu.entry_bounds(ecc1)[0])
+    name = f["relpath"].decode("latin-1")
+    if len(content1) != len(content0):
+        P.ignore_size = True
+    d = os.path.join(common.scratch(), "c04replay")
+    res = fx.run_one(P, name, content1, ecc1, os.path.join(d, "run"), recorded_size=len(content0))
+    errs = oracle(P, content0, content1, ecc1, res, len(content0))
+    common.say("params:", P.describe())
+    common.say("exit %s, stats %s, output %s" % (res["rc"], res["stats"], None if res["out"] is None else "%d bytes" % len(res["out"])))
+    for e in errs:
+        common.say("FAILS:", e)
+    if not errs:
+        common.say("the property holds on this input now")
+    return 1 if errs else 0
